@@ -18,6 +18,8 @@ inductive COp where
   | begin | commit | rollback | flush
   | exec (st : Stmt)
   | auto (st : Stmt)
+  /-- `db subq <table>`: a statement the engine does not support; it must fail (class `other`) and has no effect -/
+  | subq (table : String)
   deriving Repr
 
 structure Fill where
@@ -67,6 +69,7 @@ def parseCOp : List String → Option COp
   | ["rollback"] => some .rollback
   | ["flush"] => some .flush
   | "db" :: "batch" :: _ => none
+  | ["db", "subq", t] => if ident t then some (.subq t) else none
   | "db" :: rest => (parseStmt rest).map COp.auto
   | rest => (parseStmt rest).map COp.exec
 
@@ -183,6 +186,7 @@ def eventsOf (i : Nat) : List COp → List OCall → Nat → Nat → Bool → Li
       ⟨c.t0, c.t1, if inTxn then cur else next, Op.rollback (if inTxn then cur else next), some c.out, true, false, false⟩ ::
         eventsOf i ops cs k ka false
     | .flush => eventsOf i ops cs k ka inTxn
+    | .subq _ => eventsOf i ops cs k ka inTxn
     | .exec st =>
       ⟨c.t0, c.t1, if inTxn then cur else next, Op.exec (if inTxn then cur else next) st, some c.out, false,
         !isSel st && c.out != "ok0" && !isErrTok c.out, false⟩ :: eventsOf i ops cs k ka inTxn
@@ -256,6 +260,7 @@ def judge (line : String) : String :=
     | none => "bad-op"
     | some (st, ops) =>
       if hasDup (st.base.tables.map (·.name)) then "bad-setup"
+      else if ops.any (fun o => match o.2 with | .subq t => !(st.base.tables.map (·.name)).contains t | _ => false) then "bad-op"
       else
         let obsS := (obsS.splitOn " ## ").headD ""
         if obsS.startsWith "hang" then "bad hang"
@@ -269,8 +274,11 @@ def judge (line : String) : String :=
               if kind != "run" && kind != "interr" then "bad malformed-observation " ++ kind
               else match allSome (callWs.map parseOCall), allSome ((words finS).map parseFinal) with
                 | some calls, some fins =>
-                  match calls.find? (fun c => isInternal c.out) with
-                  | some c => s!"bad internal-error t{c.thread}:{c.out}"
+                  let tids0 := threadIds ops
+                  let paired := (tids0.map (fun i => ((ops.filter (·.1 == i)).map (·.2)).zip (calls.filter (·.thread == i)))).flatten
+                  let mustFail (o : COp) : Bool := match o with | .subq _ => true | _ => false
+                  match paired.find? (fun (o, c) => if mustFail o then c.out != "other" else isInternal c.out) with
+                  | some (_, c) => s!"bad internal-error t{c.thread}:{c.out}"
                   | none =>
                     match fins.find? (fun f => isInternal f.2 || isErrTok f.2) with
                     | some f => s!"bad internal-error final:{f.1}={f.2}"
@@ -290,7 +298,9 @@ def judge (line : String) : String :=
                         let pending : Pending := setupEvents (setupOpsT st) :: evs ++ [finalEvents (maxTicket calls) fins 0]
                         let cat := st.base.tables
                         match findSchedule showOutA cat budget pending with
-                        | none => "bad not-serialisable"
+                        | none =>
+                          if searchExhaustedBudget showOutA cat budget pending then "bad not-serialisable search-budget-exhausted"
+                          else "bad not-serialisable"
                         | some sched =>
                           if !verify showOutA cat pending sched then "bad not-serialisable verify"
                           else
